@@ -1651,3 +1651,111 @@ Proof.
       * intros ->. apply Hx. right. exact Hz.
     + intros x. rewrite L2. apply L1.
 Qed.
+
+Lemma sel_swap {A} (X : A * A) t : sel t (snd X, fst X) = sel (negb t) X.
+Proof. destruct t; reflexivity. Qed.
+
+Lemma swap_ok w X s1 s2 :
+  QInv w X ->
+  exists w', q_swap w s1 s2 = Ok w' /\ trace_ok w w' /\
+    let X' := if Bool.eqb s1 s2 then X else (snd X, fst X) in
+    QInv w' X' /\ abs w' X' = (if Bool.eqb s1 s2 then abs w X else (snd (abs w X), fst (abs w X))).
+Proof.
+  intros I. unfold q_swap. destruct (Bool.eqb s1 s2) eqn:Heq.
+  { exists w. split; [reflexivity|]. split; [apply trace_ok_refl|]. auto. }
+  assert (Hs2 : s2 = negb s1) by (destruct s1, s2; simpl in Heq; try discriminate; reflexivity). subst s2. clear Heq.
+  set (h := w_h w).
+  destruct (QInv_live_sentinel w X false I) as [na Hna]. destruct (QInv_live_sentinel w X true I) as [nb Hnb].
+  cbn [qaddr] in Hna, Hnb. unfold q_struct_swap. fold h in Hna, Hnb |- *. rewrite Hna, Hnb. cbn [lift].
+  set (h0 := dset (dset h 1 nb) 2 na).
+  set (w1 := mkW h0 (w_val w) (w_fresh w) (w_qb w) (w_qa w) (w_sched w) (w_trace w)).
+  set (a := qaddr s1). set (b := qaddr (negb s1)).
+  assert (Hab : a <> b) by (unfold a, b; destruct s1; discriminate).
+  assert (Ha0 : dget h0 a = dget h b).
+  { unfold h0, a, b. destruct s1; cbn [qaddr negb].
+    - rewrite dget_dset_same by discriminate. symmetry. exact Hna.
+    - rewrite dget_dset_other, dget_dset_same by discriminate. symmetry. exact Hnb. }
+  assert (Hb0 : dget h0 b = dget h a).
+  { unfold h0, a, b. destruct s1; cbn [qaddr negb].
+    - rewrite dget_dset_other, dget_dset_same by discriminate. symmetry. exact Hnb.
+    - rewrite dget_dset_same by discriminate. symmetry. exact Hna. }
+  assert (Hx0 : forall x, x <> 1 -> x <> 2 -> dget h0 x = dget h x).
+  { intros x H1 H2. unfold h0. rewrite !dget_dset_other by congruence. reflexivity. }
+  assert (Hnode : forall x, In x (allnodes w X) -> dget h0 x = dget h x).
+  { intros x Hx. pose proof (QInv_node_ge3 w X x I Hx). apply Hx0; lia. }
+  assert (Lv0 : forall x, live h0 x <-> live h x).
+  { intros x. unfold live. destruct (N.eq_dec x a) as [->|Hxa]; [rewrite Ha0|].
+    - split; intros _.
+      + apply (QInv_live_sentinel w X s1 I).
+      + apply (QInv_live_sentinel w X (negb s1) I).
+    - destruct (N.eq_dec x b) as [->|Hxb]; [rewrite Hb0|].
+      + split; intros _.
+        * apply (QInv_live_sentinel w X (negb s1) I).
+        * apply (QInv_live_sentinel w X s1 I).
+      + rewrite Hx0; [reflexivity| |]; unfold a, b in *; destruct s1; cbn [qaddr negb] in *; congruence. }
+  pose proof (qi_ring _ _ I s1) as Ra. pose proof (qi_ring _ _ I (negb s1)) as Rb. fold h a in Ra. fold h b in Rb.
+  set (xa := sel s1 X) in *. set (xb := sel (negb s1) X) in *.
+  assert (Pa : forall hh, (forall x, In x xa -> dget hh x = dget h x) -> Piece hh xa).
+  { intros hh Hs. apply Ring_Soup in Ra. destruct Ra as [_ F]. inversion F as [|? ? P _]; subst.
+    change (a :: xa) with ([a] ++ xa) in P. apply Piece_app_inv in P. destruct P as [_ [Sg L]]. split.
+    - eapply Seg_same; eauto.
+    - rewrite Forall_forall in *. intros x Hx. unfold live. rewrite Hs by exact Hx. apply L. exact Hx. }
+  assert (Pb : forall hh, (forall x, In x xb -> dget hh x = dget h x) -> Piece hh xb).
+  { intros hh Hs. apply Ring_Soup in Rb. destruct Rb as [_ F]. inversion F as [|? ? P _]; subst.
+    change (b :: xb) with ([b] ++ xb) in P. apply Piece_app_inv in P. destruct P as [_ [Sg L]]. split.
+    - eapply Seg_same; eauto.
+    - rewrite Forall_forall in *. intros x Hx. unfold live. rewrite Hs by exact Hx. apply L. exact Hx. }
+  assert (Hina : forall x, In x xa -> In x (allnodes w X)) by (intros x Hx; eapply allnodes_sel; eauto).
+  assert (Hinb : forall x, In x xb -> In x (allnodes w X)) by (intros x Hx; eapply allnodes_sel; eauto).
+  assert (Hnota : forall x, In x xa -> x <> a /\ x <> b).
+  { intros x Hx. pose proof (QInv_node_ge3 w X x I (Hina x Hx)). unfold a, b. destruct s1; cbn; lia. }
+  assert (Hnotb : forall x, In x xb -> x <> a /\ x <> b).
+  { intros x Hx. pose proof (QInv_node_ge3 w X x I (Hinb x Hx)). unfold a, b. destruct s1; cbn; lia. }
+  (* first move: a takes over the ring of b *)
+  destruct (move_spec h0 a b xb) as (h1 & E1 & R1 & F1 & L1).
+  { apply Pb. intros x Hx. apply Hnode, Hinb, Hx. }
+  { constructor; [intros H; exact (proj1 (Hnotb a H) eq_refl)|]. apply Ring_NoDup in Rb. apply NoDup_cons_iff in Rb. tauto. }
+  { apply Lv0. apply (QInv_live_sentinel w X s1 I). }
+  { congruence. }
+  { intros H. exact (proj2 (Hnotb b H) eq_refl). }
+  { rewrite (rd_next_dget h h0) by exact Ha0. apply (Ring_next h [] b xb Rb). }
+  { rewrite (rd_prev_dget h h0) by exact Ha0. apply (Ring_prev h [] b xb Rb). }
+  change (w_h w1) with h0. rewrite E1.
+  (* second move: b takes over the ring of a *)
+  assert (Hdisj : forall x, In x xa -> ~ In x (a :: xb)).
+  { intros x Hx [E|H]; [exact (proj1 (Hnota x Hx) (eq_sym E))|]. eapply (QInv_sel_disj w X s1 x I); eauto. }
+  destruct (move_spec h1 b a xa) as (h2 & E2 & R2 & F2 & L2).
+  { apply Pa. intros x Hx. rewrite F1 by (apply Hdisj; exact Hx). apply Hnode, Hina, Hx. }
+  { constructor; [intros H; exact (proj2 (Hnota b H) eq_refl)|]. apply Ring_NoDup in Ra. apply NoDup_cons_iff in Ra. tauto. }
+  { apply L1, Lv0. apply (QInv_live_sentinel w X (negb s1) I). }
+  { exact Hab. }
+  { intros H. exact (proj1 (Hnota a H) eq_refl). }
+  { rewrite (rd_next_dget h0 h1), (rd_next_dget h h0) by (try exact Hb0; apply F1; intros [E|H];
+      [congruence|exact (proj2 (Hnotb b H) eq_refl)]). apply (Ring_next h [] a xa Ra). }
+  { rewrite (rd_prev_dget h0 h1), (rd_prev_dget h h0) by (try exact Hb0; apply F1; intros [E|H];
+      [congruence|exact (proj2 (Hnotb b H) eq_refl)]). apply (Ring_prev h [] a xa Ra). }
+  rewrite E2. exists (seth w1 h2). split; [reflexivity|]. split; [intros H; split; [exact H|reflexivity]|].
+  assert (R1' : Ring h2 (a :: xb)).
+  { eapply Ring_Frame; eauto. intros x [<-|Hx] [E|H]; try congruence.
+    - exact (proj1 (Hnota a H) eq_refl).
+    - exact (proj2 (Hnotb x Hx) (eq_sym E)).
+    - eapply (QInv_sel_disj w X s1 x I); eauto. }
+  assert (Hperm : Permutation (allnodes (seth w1 h2) (snd X, fst X)) (allnodes w X)).
+  { unfold allnodes, pools. cbn [fst snd w_qa w_qb seth w1].
+    eapply perm_trans; [apply Permutation_app_swap_app|]. do 2 apply Permutation_app_head.
+    apply Permutation_app_comm. }
+  split.
+  - constructor.
+    + intros t. rewrite sel_swap. cbn [w_h seth].
+      destruct (bool_cases s1 t) as [->| ->]; [exact R1'|]. rewrite negb_involutive. exact R2.
+    + eapply Permutation_NoDup; [symmetry; exact Hperm|apply (qi_nodup _ _ I)].
+    + intros x Hx. eapply Permutation_in in Hx; [|exact Hperm].
+      pose proof (qi_node _ _ I x Hx) as (B & L & V). split; [exact B|]. split; [|exact V].
+      cbn [w_h seth]. apply L2, L1, Lv0. exact L.
+    + intros t. rewrite sel_swap. replace (getq (seth w1 h2) t) with (getq w (negb t)) by (destruct t; reflexivity).
+      apply (qi_num _ _ I).
+    + intros t. replace (getq (seth w1 h2) t) with (getq w (negb t)) by (destruct t; reflexivity).
+      apply (qi_mem _ _ I).
+    + rewrite (Permutation_length Hperm). apply (qi_fresh _ _ I).
+  - reflexivity.
+Qed.
